@@ -195,26 +195,30 @@ class SqliteStateStore(Generic[MODEL_T]):
 
     async def set_state(self, state: MODEL_T) -> None:
         """Replace or merge into the current state model."""
-        conn = self._connect()
-        try:
-            cursor = conn.cursor()
-            cursor.execute(
-                "SELECT state_json FROM workflow_state WHERE run_id = ?",
-                (self._run_id,),
-            )
-            row = cursor.fetchone()
+        # Same lock as edit_state(): a write must not slip in between the load
+        # and the commit of a suspended edit_state block (it would be overwritten).
+        async with self._lock:
+            conn = self._connect()
+            try:
+                cursor = conn.cursor()
+                cursor.execute(
+                    "SELECT state_json FROM workflow_state WHERE run_id = ?",
+                    (self._run_id,),
+                )
+                row = cursor.fetchone()
 
-            if row is None:
-                self._save_state(state, conn)
+                # No row yet: merge onto the default state, exactly as if the row
+                # existed (a parent-typed state must not replace the child type).
+                current_state = (
+                    self._create_default_state()
+                    if row is None
+                    else self._deserialize_state(row[0])
+                )
+                merged = merge_state(current_state, state)
+                self._save_state(merged, conn)  # type: ignore[arg-type]
                 conn.commit()
-                return
-
-            current_state = self._deserialize_state(row[0])
-            merged = merge_state(current_state, state)
-            self._save_state(merged, conn)  # type: ignore[arg-type]
-            conn.commit()
-        finally:
-            conn.close()
+            finally:
+                conn.close()
 
     async def get(self, path: str, default: Any = ...) -> Any:
         """Get a nested value using dot-separated paths."""
